@@ -215,9 +215,9 @@ def followup(ex, st, order, L, hist, refreshed):
                           f"after a follow-up assignment to {L}, location {M} of the {kind} manager differs from the fresh manager")
             if not ok:
                 if ex.mode == "sym":
-                    cyc = U.false_cycle_tasks(w.m)
+                    cyc = U.false_cycle_locs(st.defs)
                     ex.cexs[-1].detail = {"history": hist, "assigned": L, "loc": M, "false_cycle_tasks": cyc,
-                                          "false_cycle_through_loc": c01._refname(M) in cyc}
+                                          "false_cycle_through_loc": M in cyc}
                 return False
     return True
 
